@@ -52,7 +52,7 @@ func (rr *routingRun) build() bool {
 		hosts = src.Intn("hosts", 6) != 0
 	}
 	pc := world.PoolCfg{Size: 3 + src.Intn("poolsize", 11), MaxSegs: 1 + src.Intn("maxsegs", 6), Hosts: hosts,
-		WildHeavy: sim.Bool(src, "wildheavy"), TSlash: src.Intn("tslash", 5), Fanout: src.Intn("fanout", 14) == 13, Deep: src.Intn("deep", 14) == 13, Odd: src.Intn("oddbytes", 5) == 4, Ladder: src.Intn("ladder", 10) == 9}
+		WildHeavy: sim.Bool(src, "wildheavy"), TSlash: src.Intn("tslash", 5), Fanout: src.Intn("fanout", 14) == 13, Deep: src.Intn("deep", 14) == 13, Odd: src.Intn("oddbytes", 5) == 4, Ladder: src.Intn("ladder", 10) == 9, ManyParams: src.Intn("manyparams", 40) == 39}
 	rr.pool = world.GenPool(src, pc)
 	if len(rr.pool) == 0 {
 		return false
@@ -64,7 +64,7 @@ func (rr *routingRun) build() bool {
 	}
 	rr.w = w
 	rr.set = model.NewSet()
-	if pc.Fanout || pc.Deep || pc.Ladder {
+	if pc.Fanout || pc.Deep || pc.Ladder || pc.ManyParams {
 		msg, ok := prefillFanout(src, w, rr.set, rr.cfg, rr.pool, &rr.nextTag)
 		if !ok {
 			rr.res.inc("runs_stopped_setup_write_disagrees_with_map_model")
